@@ -587,7 +587,7 @@ PROPS.update({
     ),
     'C13': dict(
         explanation='theorems: for every item and argument list every token the expander writes literally is punctuation, a keyword, a literal or a `__`-reserved name; no template calls anything in method syntax or writes `Self::name` where `Self` may be an enum; every other generated identifier is a segment of an absolute ::core path, a member name or attribute content (attr_output_hygienic, derive_output_hygienic over provenance-carrying tokens). L1 ties every token to the implementation; L2: the well-typed grammar under a hostile-name dictionary in four scopes.',
-        theorems=[(CMP + 'C13Hyg', ['DX.attr_output_hygienic', 'DX.derive_output_hygienic', 'DX.hyg_makeIdent', 'DX.absPath_strs', 'DX.kind_paths_rooted']), ('DeriveExModel.Props.QuoteIdents', ['DX.quote_table_free_ok', 'DX.quote_table_abs_roots_core', 'DX.quote_table_no_relative_paths', 'DX.quote_table_no_method_calls', 'DX.quote_table_self_paths', 'DX.quote_table_singles_ok', 'DX.quote_table_binder_prefixes', 'DX.quote_table_formats_known', 'DX.quote_table_nonempty']),  (CMP + 'C13Ren', ['DX.mentions_rename', 'DX.mentions_paramSet_rename', 'DX.paramSet_rename', 'DX.isSelf_rename', 'DX.expandSelf_rename', 'DX.mayBeUnsized_rename', 'DX.whereClause_rename']), (CMP + 'C20', ['DX.introduced_names_reserved', 'DX.makeIdent_shape', 'DX.helper_free_of_field_type',
+        theorems=[(CMP + 'C13Hyg', ['DX.attr_output_hygienic', 'DX.derive_output_hygienic', 'DX.hyg_makeIdent', 'DX.absPath_strs', 'DX.kind_paths_rooted']), ('DeriveExModel.Props.C13Out', ['DX.fwd_no_generated_self_output', 'DX.opFunc_ne_output']), ('DeriveExModel.Props.QuoteIdents', ['DX.quote_table_free_ok', 'DX.quote_table_abs_roots_core', 'DX.quote_table_no_relative_paths', 'DX.quote_table_no_method_calls', 'DX.quote_table_self_paths', 'DX.quote_table_singles_ok', 'DX.quote_table_binder_prefixes', 'DX.quote_table_formats_known', 'DX.quote_table_nonempty']),  (CMP + 'C13Ren', ['DX.mentions_rename', 'DX.mentions_paramSet_rename', 'DX.paramSet_rename', 'DX.isSelf_rename', 'DX.expandSelf_rename', 'DX.mayBeUnsized_rename', 'DX.whereClause_rename']), (CMP + 'C20', ['DX.introduced_names_reserved', 'DX.makeIdent_shape', 'DX.helper_free_of_field_type',
                                  'DX.expandSelf_no_self']),
                   ('DeriveExModel.Props.Tables', ['DX.trait_table_model'])],
         l1=[('all', 3000, 60000), ('cmpN', 2000, 40000), ('impl', 1000, 20000), ('ext', 24000, 640000)],
